@@ -127,14 +127,25 @@ fn oracle(w: &World, case: &PCase, run: &PRun, o: &mut Outcome) {
                     .filter(|(_, (r, c))| *r == rev_idx && c == commit)
                     .map(|(a, _)| a)
                     .collect();
-                if mergers.len() < threshold {
+                // Reading fixed in advance (DESIGN C08): "have recorded a merge" = an applied Merge action by
+                // that delegate is present in the evaluated history (a later action of the same op may already
+                // have replaced the actor's entry in the `merges` map, which holds each actor's latest only).
+                let recorded_n = recorded.values().filter(|s| s.contains(&(rev_idx.clone(), *commit))).count();
+                if recorded_n < threshold {
                     o.violations.push((
                         "merged-below-threshold".into(),
-                        format!("op {}: merged at ({rev_idx},{commit}) with {} mergers, threshold {threshold}", s.op, mergers.len()),
+                        format!(
+                            "op {}: merged at ({rev_idx},{commit}) with {recorded_n} delegates having recorded that merge ({} in the map), threshold {threshold}",
+                            s.op,
+                            mergers.len()
+                        ),
                     ));
                 }
-                if mergers.len() == threshold {
+                if recorded_n == threshold {
                     o.tags.push("merged-at-exact-threshold".into());
+                }
+                if mergers.len() < recorded_n {
+                    o.tags.push("merger-replaced-own-merge-in-same-op".into());
                 }
                 for m in &mergers {
                     if !recorded.get(m).map(|s| s.contains(&(rev_idx.clone(), *commit))).unwrap_or(false) {
